@@ -129,7 +129,7 @@ def T_set_y(rng, Dx=2, Dy=2, N=3):
         u = p.multiply(c.set_y(i["y"]).product())
         d = u.get_density()
         return u.log_integral(), d.mu, d.Sigma
-    return inp, f, None, ["M", "b", "S", "Sx", "mx", "y"], {"S": "sym", "Sx": "sym"}
+    return inp, f, "y", ["M", "b", "S", "Sx", "mx", "y"], {"S": "sym", "Sx": "sym"}
 
 
 def T_identity(rng, D=2):
@@ -144,7 +144,7 @@ def T_identity(rng, D=2):
         post = c.affine_conditional_transformation(p)
         return m.evaluate_ln(i["y"]), post.condition_on_x(i["y"][:1]).mu, \
             c.integrate_log_conditional_y(p, y=i["y"])
-    return inp, f, None, ["S", "Sx", "mx", "y"], {"S": "sym", "Sx": "sym"}
+    return inp, f, "y", ["S", "Sx", "mx", "y"], {"S": "sym", "Sx": "sym"}
 
 
 def T_poly(rng, D=2, R=2):
@@ -160,7 +160,7 @@ def T_poly(rng, D=2, R=2):
         q3 = u.integrate("(Ax+a)'(Bx+b)(Cx+c)'", A_mat=i["A"], a_vec=i["a"], B_mat=i["A"],
                          b_vec=i["a"], C_mat=i["B"], c_vec=i["b"])
         return q4, q3, u.integrate("xb'xx'", b_vec=i["A"][0])
-    return inp, f, None, ["Lam", "nu", "A", "a", "B", "b"], {"Lam": "sym"}
+    return inp, f, "nu", ["Lam", "nu", "A", "a", "B", "b"], {"Lam": "sym"}
 
 
 def T_logfactor(rng, D=2, R=2):
@@ -172,7 +172,7 @@ def T_logfactor(rng, D=2, R=2):
         p = L.pdf.GaussianPDF(Sigma=i["Sig"], mu=i["mu"])
         fac = L.factor.ConjugateFactor(Lambda=i["FL"], nu=i["fnu"], ln_beta=i["flb"])
         return (p.integrate("log u(x)", factor=fac),)
-    return inp, f, None, ["Sig", "mu", "FL", "fnu", "flb"], {"Sig": "sym", "FL": "sym"}
+    return inp, f, "mu", ["Sig", "mu", "FL", "fnu", "flb"], {"Sig": "sym", "FL": "sym"}
 
 
 def T_lrbf(rng, Dx=1, Dy=2, Dk=2):
@@ -203,7 +203,7 @@ def T_lsem(rng, Dx=2, Dy=1, Dk=2):
         j = c.affine_joint_transformation(p)
         post = c.affine_conditional_transformation(p)
         return j.mu, j.Sigma, post.M
-    return inp, f, None, ["M", "b", "W", "S", "Sx", "mx"], {"S": "sym", "Sx": "sym"}
+    return inp, f, "mx", ["M", "b", "W", "S", "Sx", "mx"], {"S": "sym", "Sx": "sym"}
 
 
 def T_het(kind):
@@ -225,7 +225,7 @@ def T_het(kind):
             p = L.pdf.GaussianPDF(Sigma=i["Sx"], mu=i["mx"])
             m = c.affine_marginal_transformation(p)
             return c.integrate_log_conditional_y(p, y=i["y"]), m.mu, m.Sigma
-        return inp, f, None, ["M", "b", "A", "W", "Sx", "mx", "y"], {"Sx": "sym"}
+        return inp, f, "y", ["M", "b", "A", "W", "Sx", "mx", "y"], {"Sx": "sym"}
     return make
 
 
@@ -239,7 +239,7 @@ def T_truncated(rng, R=2):
         u = L.measure.GaussianMeasure(Lambda=i["lam"], nu=i["nu"], ln_beta=i["lb"])
         t = tm.TruncatedGaussianMeasure(measure=u, lower_limit=i["lo"], upper_limit=i["hi"])
         return t.integrate("1"), t.integrate("x"), t.integrate("x**2"), t.integrate("x**k", k=3)
-    return inp, f, None, ["lam", "nu", "lb", "lo", "hi"], {}
+    return inp, f, "nu", ["lam", "nu", "lb", "lo", "hi"], {}
 
 
 TEMPLATES = {
